@@ -7,6 +7,9 @@ names of the tree the rules were written against) and private (leading underscor
 back into its callers before normalisation, so that the anchored function is analysed as a whole
 again.  Known functions are never inlined (they are anchors or are analysed through their own rules).
 
+(Originally only underscore-private helpers were considered; a seeded change that put its logic into a new
+public-looking method `box_sizes()` showed that the name says nothing - "new" is what matters.)
+
 A call is inlined when
   * it resolves to exactly one definition: `self.h(..)` / `cls.h(..)` / `Class.h(..)` to the only class of the
     module that defines the private name `h`, `h(..)` to a module-level function of the same module;
@@ -45,7 +48,8 @@ def load_known():
 
 
 def is_private(name):
-    return name.startswith("_") and not (name.startswith("__") and name.endswith("__"))
+    # "helper" = any function that is not a special method; whether it is new is decided against the table of known names
+    return not (name.startswith("__") and name.endswith("__"))
 
 
 def _all_stmts(body):
@@ -360,7 +364,8 @@ class Inliner:
         call, anc = found[0]
         if any(isinstance(x, lazy) for x in ast.walk(root)):
             return None
-        others = [x for x in ast.walk(root) if isinstance(x, ast.Call) and x is not call]
+        inside = {id(x) for x in ast.walk(call)}
+        others = [x for x in ast.walk(root) if isinstance(x, ast.Call) and id(x) not in inside]
         if any(o not in anc for o in others):
             return None
         if isinstance(st, ast.Assign) and any(isinstance(x, ast.Call) for t in st.targets for x in ast.walk(t)):
